@@ -21,7 +21,7 @@ theorem rldecodeAux_fuel : âˆ€ (f1 f2 : Nat) (data : Bytes), data.length < f1 â†
     | nil => rfl
     | cons l rest =>
       simp only [List.length_cons] at h1 h2
-      simp only [rldecodeAux]
+      simp only [rldecodeAux_cons_lit]
       split
       Â· rfl
       Â· split
